@@ -16,7 +16,7 @@ from ..worlds import relay
 ID = "C03"
 LEVEL = "exploration"
 CHUNK = 40
-BUDGET = {"quick": {"runs": 2500, "wall": 150}, "thorough": {"runs": 100000, "wall": 3000}}
+BUDGET = {"quick": {"runs": 2500, "wall": 150}, "thorough": {"runs": 100000, "wall": 1200}}
 RULE = ("pool events with single and double field deviations: id random / hash of another event / "
         "upper or mixed case, pubkey or sig swapped between events, signature by another key, content / "
         "tags / kind / created_at changed under the old signature, numbers as strings / floats / bools, "
